@@ -29,8 +29,34 @@ CHECKS["C04"] = dict(
          "hand-written models on a model alphabet, validated by the correspondence.",
     technique="Lean 4 proof (mutual structural induction; decide over generated tables) + model/implementation correspondence",
     design="6 C04")
+CHECKS["C07"] = dict(
+    text="Lean 4 theorems about a code-order state machine of KeyFile (per object key/refcount; world = one file + the os.urandom "
+         "tape): verbatim use of a 32-byte file with the world unchanged, creation from the next tape entry, rejection of any other "
+         "size leaving the object closed, nested contexts share the key without touching the file, and the invariant 'key present "
+         "iff a context is open, and then 32 bytes' for every reachable state of every properly nested history with external file "
+         "changes (induction over histories), hence no encrypt/decrypt ever runs with anything but 32 bytes. Correspondence: "
+         "random histories on the real KeyFile (exception class, file bytes, private key/refcount after every op) vs the model.",
+    note="Model hand-written, tied by differential histories. File system abstracted to one path (absent / bytes / not creatable); "
+         "randomness of the generated key not modelled; __exit__ without __enter__ is outside the property.",
+    technique="Lean 4 proof (invariant by induction over operation histories) + model/implementation correspondence",
+    design="6 C07")
+CHECKS["C08"] = dict(
+    text="Lean 4 theorems: XOR spec and involution for every key/data; PKCS7 pad/unpad inverse for every length; AES-CBC round trip, "
+         "layout and IV-freshness for every key, IV and plaintext over any block cipher with dec(enc b)=b; short/unaligned "
+         "ciphertexts rejected; recorded method always concrete; SecureField stored-value decision table (every malformed shape "
+         "rejected) and field-level round trip, using proved base64 decode(encode b)=b. Correspondence: the model instantiated "
+         "with an executable FIPS-197 AES-256 decrypts every ciphertext the library produced and re-encrypts with the IV it drew "
+         "(byte equality); malformed-value grammar through SecureField.to_python; lenient base64 decoding on random text.",
+    note="BlockCipher.Lawful for the real AES and Utf8.Lawful are hypotheses (not axioms); the Lean AES is validated by NIST vectors at "
+         "build time and differentially on every case. IV randomness and 'another key never yields the plaintext' are not provable; the "
+         "latter is checked per case. base64 is a hand model of binascii validated by the stream.",
+    technique="Lean 4 proof (byte-list algebra, induction over blocks) + model/implementation correspondence with an independent AES",
+    design="6 C08")
 PENDING = ["C01", "C02", "C03", "C04", "C05", "C06", "C07", "C08", "C09", "C10", "C11", "C12", "C13", "C14", "C15", "C16",
            "C17", "C19", "C20"]
+
+
+FIXES = [f['commit'] for f in json.load(open(os.path.join(VERIF, 'known_findings.json')))['findings'] if f['status'] == 'fixed']
 
 
 def main():
@@ -55,7 +81,7 @@ def main():
             "enable": "no hooks: every observation is made through the public API, private attribute reads and harness-side "
                       "wrapping of open/os.urandom/os.environ",
             "baseline_off_cmd": "cd /repo && /venv/bin/python -m pytest -ra -q -p no:cacheprovider --timeout=900 --continue-on-collection-errors",
-            "source_commits": [],
+            "source_commits": FIXES,
             "add_only": True,
         },
         "engines": [{"name": "lean4-cinco", "path": "lean/Cinco", "serves_properties": sorted(CHECKS),
